@@ -562,3 +562,40 @@ func H_C05_pipeline() {
 	}
 	verif.Reach("end")
 }
+
+// H_C05_literals: LIMIT and OFFSET written with leading zeros (and both
+// spellings of the clause) mean their decimal value; never an error.
+func H_C05_literals() {
+	lims := []string{"010", "08", "0011", "3", "00", "012"}
+	limv := []int{10, 8, 11, 3, 0, 12}
+	offs := []string{"", "010", "09", "01", "2"}
+	offv := []int{0, 10, 9, 1, 2}
+	li := verif.Choose("limit", len(lims))
+	oi := verif.Choose("offset", len(offs))
+	spelling := verif.Choose("spelling", 2)
+	n := 12 + verif.Choose("extra-rows", 2)
+	arr := make([]any, n)
+	for i := range arr {
+		arr[i] = Map{"id": float64(i)}
+	}
+	sql := "SELECT id FROM t LIMIT " + lims[li]
+	if oi > 0 {
+		if spelling == 0 {
+			sql += " OFFSET " + offs[oi]
+		} else {
+			sql = "SELECT id FROM t LIMIT " + offs[oi] + ", " + lims[li]
+		}
+	}
+	got, ok := runQuery(Map{"t": arr}, sql)
+	if !ok {
+		return
+	}
+	var want []any
+	for i := 0; i < n; i++ {
+		if i >= offv[oi] && i-offv[oi] < limv[li] {
+			want = append(want, Map{"id": float64(i)})
+		}
+	}
+	verif.Assert(verif.Eq(got, want), "window")
+	verif.Reach("end")
+}
